@@ -35,12 +35,95 @@ var inventoryTxt string
 
 func inventory() map[string]bool {
 	m := map[string]bool{}
+	for k := range inventorySigs() {
+		m[k] = true
+	}
+	return m
+}
+
+// inventorySigs: key → signature (as written by -write-inventory: "key<TAB>signature").
+func inventorySigs() map[string]string {
+	m := map[string]string{}
 	for _, l := range strings.Split(inventoryTxt, "\n") {
 		if l = strings.TrimSpace(l); l != "" && !strings.HasPrefix(l, "#") {
-			m[l] = true
+			k, sig, _ := strings.Cut(l, "\t")
+			m[k] = sig
 		}
 	}
 	return m
+}
+
+func sigString(f *types.Func) string {
+	sig := f.Type().(*types.Signature)
+	q := func(p *types.Package) string { return p.Path() }
+	tuple := func(t *types.Tuple) string {
+		var xs []string
+		for i := 0; i < t.Len(); i++ {
+			xs = append(xs, types.TypeString(t.At(i).Type(), q))
+		}
+		return "(" + strings.Join(xs, ", ") + ")"
+	}
+	v := ""
+	if sig.Variadic() {
+		v = "…"
+	}
+	return "func" + tuple(sig.Params()) + v + " " + tuple(sig.Results())
+}
+
+// declaredFuncs: key → declared function of the production packages.
+func declaredFuncs(pkgs []*packages.Package) map[string]*types.Func {
+	out := map[string]*types.Func{}
+	for _, pk := range pkgs {
+		if !isProdPkg(pk.PkgPath) {
+			continue
+		}
+		for _, f := range pk.Syntax {
+			for _, d := range f.Decls {
+				if fd, ok := d.(*ast.FuncDecl); ok && fd.Name.Name != "_" {
+					if o, ok := pk.TypesInfo.Defs[fd.Name].(*types.Func); ok {
+						out[declKey(pk, fd)] = o
+					}
+				}
+			}
+		}
+	}
+	return out
+}
+
+// computeRenames: a function of the reference inventory that is gone, and exactly one function that is not in the
+// inventory with the same package, receiver type and signature: the function was renamed (new key → old key). The
+// analysis then knows it under its old name; it is not a new helper.
+func computeRenames(pkgs []*packages.Package) map[string]string {
+	sigs := inventorySigs()
+	decl := declaredFuncs(pkgs)
+	scopeOf := func(key string) string { // package and receiver part of the key
+		if i := strings.LastIndex(key, "."); i >= 0 {
+			return key[:i]
+		}
+		return key
+	}
+	type slot struct{ scope, sig string }
+	missing := map[slot][]string{}
+	for k, sg := range sigs {
+		if _, ok := decl[k]; !ok && sg != "" {
+			s := slot{scopeOf(k), sg}
+			missing[s] = append(missing[s], k)
+		}
+	}
+	fresh := map[slot][]string{}
+	for k, f := range decl {
+		if _, ok := sigs[k]; !ok {
+			s := slot{scopeOf(k), sigString(f)}
+			fresh[s] = append(fresh[s], k)
+		}
+	}
+	out := map[string]string{}
+	for s, olds := range missing {
+		if news := fresh[s]; len(olds) == 1 && len(news) == 1 {
+			out[news[0]] = olds[0]
+		}
+	}
+	return out
 }
 
 func declKey(pk *packages.Package, d *ast.FuncDecl) string {
@@ -73,6 +156,16 @@ func declKey(pk *packages.Package, d *ast.FuncDecl) string {
 
 func isGeneratedFileName(name string) bool {
 	return strings.HasSuffix(name, ".pb.go") || strings.HasSuffix(name, ".pb.gw.go") || strings.HasSuffix(name, ".pulsar.go")
+}
+
+// inventoryLines: "key<TAB>signature" for every function declaration of the production packages.
+func inventoryLines(pkgs []*packages.Package) []string {
+	var out []string
+	for k, f := range declaredFuncs(pkgs) {
+		out = append(out, k+"\t"+sigString(f))
+	}
+	sort.Strings(out)
+	return out
 }
 
 // declaredFuncKeys lists the keys of the function declarations of the production packages.
@@ -1481,6 +1574,9 @@ func interfaceMethodNames(pkgs []*packages.Package) map[string]bool {
 // left; load re-type-checks the tree with an overlay. Returns the packages to analyse and a log.
 func Normalise(pkgs []*packages.Package, overlay map[string][]byte, load func(map[string][]byte) ([]*packages.Package, bool)) ([]*packages.Package, map[string][]byte, []string) {
 	inv := inventory()
+	for nk := range computeRenames(pkgs) {
+		inv[nk] = true // a renamed function of the inventory, not a new helper
+	}
 	anyNew := false
 	for _, k := range declaredFuncKeys(pkgs) {
 		if !inv[k] {
